@@ -14,7 +14,7 @@ import (
 
 func init() {
 	sim.Register(&sim.Prop{
-		ID: "C10", Run: runC10, QuickRuns: 250000, ThoroughRuns: 5000000,
+		ID: "C10", Run: runC10, QuickRuns: 250000, ThoroughRuns: 8000000,
 		Rule:       "Each run: 1..5 frames laid out by the reference builder from a section plan (sections in any order, repeated, interleaved padding, transform ids, any flags/seq/protocol id) pass through the fault transport - truncation at any cut point, corruption of 1..3 structural bytes with boundary values (magic, size field incl. 0/1/0x3fff/0x4000/0x4001/0x8000/0xffff, protocol id, transform count, info ids, counts, string lengths), splices (a frame section repeated or swapped) - and reach Decode through a fragmenting simulated Source and DecodeFromBytes. One-directional oracle: no panic or hang; consumption <= 14 + declared size and <= delivered bytes; success only if the independent parser's necessary conditions hold, and then header/payload lengths and both maps equal the reference's.",
 		Components: realComponents,
 		Probes:     []string{"ref.accepts", "ref.rejects", "size_field_ge_0x4001", "size_field_0x4000", "unknown_info_id", "duplicate_keys", "splice", "impl.accepts", "every_cut_point_enumerated"},
